@@ -289,5 +289,13 @@ func (r *Rec) Report(oracle, sig, msg string, cas interface{}) bool {
 		b = []byte(fmt.Sprintf("%q", fmt.Sprint(cas)))
 	}
 	r.Violate(Violation{Oracle: oracle, Signature: sig, Message: msg, Case: b})
+	if strings.HasPrefix(sig, "hang|") {
+		// A call that does not return leaves its goroutine spinning in this process: shrinking would
+		// pay the hang limit once per attempt and every later measurement is disturbed. The case that
+		// hung is the reproduction; flush and leave.
+		r.Flush()
+		fmt.Printf("HANG recorded (%s); leaving the process\n", sig)
+		os.Exit(1)
+	}
 	return true
 }
